@@ -60,13 +60,15 @@ claim('C16', 'verus',
       'Not decided: token kinds, build_tree, error spans, re-parse equality.',
       'DESIGN.md §4 C16')
 
-claim('C10', 'kani',
-      'contract-based verification (Kani/CBMC, loop-free full-domain proofs) of the real CodeSpan code, cut mechanically on every run',
-      'Clause decided: the code ranges registered with the runtime are disjoint, so every address resolves to exactly one function - at the level of the ordering the runtime keys its code map with. '
+claim('C10', 'kani+verus',
+      'contract-based verification: Kani/CBMC loop-free full-domain proofs of the real CodeSpan code, Verus contracts on CodeMap and on the stack-map / source-position tables; all cut mechanically on every run',
+      'Clauses decided: (1) the code ranges registered with the runtime are disjoint, so every address resolves to exactly one function: '
       'CodeSpan::{new, intersect} and its PartialEq/Eq/PartialOrd/Ord impls (with gc::Address) are cut verbatim and proved, for all usize bounds with no bound on values: intersect <=> real overlap, '
-      'cmp is a strict total order on pairwise disjoint spans (Equal <=> overlap, antisymmetric, transitive) and a one-byte point query is Equal to exactly the containing span and ordered correctly against the rest. '
-      'Failed rows come with CBMC counterexamples replayed on the same cut code.',
-      'Trusted: Kani/CBMC, the rows (contracts/c10_rows.rs). ASSUMED: BTreeMap is a map under a lawful Ord (std; CodeMap::{insert,get} are not composed: BTreeMap exhausts CBMC memory). '
+      'cmp is a strict total order on pairwise disjoint spans (Equal <=> overlap, antisymmetric, transitive) and a one-byte point query is Equal to exactly the containing span and ordered correctly against the rest; '
+      'CodeMap::{new, insert, get} are proved in Verus over an assumed BTreeMap contract: the registered ranges stay pairwise disjoint and get(pc) returns the unique range containing pc. '
+      '(2) the stack-map and source-position tables of a compiled function (GcPointTable, LocationTable in dora-compiler): insert keeps the offsets strictly increasing (source-position tables are ordered), '
+      'get(offset) returns the entry recorded for exactly that return offset and None iff there is none. Failed rows come with CBMC counterexamples replayed on the same cut code.',
+      'Trusted: Kani/CBMC, Verus/Z3, the rows (contracts/c10_rows.rs). ASSUMED: BTreeMap is a map under a lawful Ord (std; BTreeMap exhausts CBMC memory), binary_search_by_key (std), the callers insert with increasing offsets. '
       'Not decided: presence/shape of stack maps in emitted code, slot ranges, `.s` metadata, arm64, optimizing generator.',
       'DESIGN.md §4 C10')
 
